@@ -194,7 +194,7 @@ Theorem v2_fill_phase_relab h p r ring : incl ring NS ->
   v2_fill_phase h p r [] (map phi ring) =
   out_map (fun lp => (relabs (fst lp), map (map phi) (snd lp))) (v2_fill_phase h p r [] ring).
 Proof.
-  intros Hr. unfold v2_fill_phase. simpl add_olds. rewrite map_length, init_relab.
+  intros Hr. unfold v2_fill_phase. cbn [map]. simpl add_olds. rewrite map_length, init_relab.
   apply fill_parts_relab. rewrite names_init. exact Hr.
 Qed.
 End Relabel.
@@ -327,7 +327,7 @@ Qed.
 Lemma check_walk_spec pmax d k r hm : check_walk pmax d k r hm = true ->
   forall p, 1 <= p <= pmax -> check_one d k r hm p = true.
 Proof.
-  unfold check_walk, check_one, v2_fill_phase. intros H p Hp. simpl add_olds. rewrite canon_ring_length.
+  unfold check_walk, check_one, v2_fill_phase. intros H p Hp. cbn [map]. simpl add_olds. rewrite canon_ring_length.
   destruct (walk_spec d r pmax 0%N _ H p ltac:(lia)) as [ls' [parts [E [HB HS]]]].
   rewrite E, HB, HS by lia. reflexivity.
 Qed.
